@@ -42,15 +42,35 @@ type stmt struct {
 	BK   int      `json:"bk,omitempty"`   // block: 0 Cond 1 Loop 2 LoopN 3 Foreach 4 Group
 	Body []stmt   `json:"body,omitempty"` // block
 	Alts [][]stmt `json:"alts,omitempty"` // alt
+	// texts (option streams only): attributes and patterns of a call statement
+	Attrs map[string]string `json:"attrs,omitempty"`
+	XPats []string          `json:"xpats,omitempty"`
 }
 type endpointT struct {
 	Hidden bool   `json:"hidden,omitempty"`
 	Body   []stmt `json:"body"`
+	// texts (option streams only)
+	Suffix string            `json:"suffix,omitempty"` // the endpoint is named E<nn><suffix>
+	Long   string            `json:"long,omitempty"`
+	Attrs  map[string]string `json:"attrs,omitempty"`
+	XPats  []string          `json:"xpats,omitempty"` // further patterns
+	BBAttr []bbElt           `json:"bbattr,omitempty"`
+	Params [][2]string       `json:"params,omitempty"` // (application, type) references
 }
 type appT struct {
 	Pats  []string    `json:"pats,omitempty"`
 	Group string      `json:"group,omitempty"` // value of the attribute "team" ("" = attribute absent)
 	Eps   []endpointT `json:"eps"`
+	// texts (option streams only)
+	Suffix string            `json:"suffix,omitempty"` // the application is named A<nn><suffix>
+	Attrs  map[string]string `json:"attrs,omitempty"`
+	BBAttr []bbElt           `json:"bbattr,omitempty"`
+}
+
+// one element of a `blackboxes` attribute
+type bbElt struct {
+	NotArray bool     `json:"not_array,omitempty"`
+	Strs     []string `json:"strs,omitempty"`
 }
 type bbT struct {
 	A    int  `json:"a"`
@@ -65,8 +85,8 @@ type caseT struct {
 	GroupBy bool     `json:"groupby,omitempty"`
 }
 
-func an(i int) string { return fmt.Sprintf("A%02d", i) }
-func en(i int) string { return fmt.Sprintf("E%02d", i) }
+func an(i int) string     { return fmt.Sprintf("A%02d", i) }
+func en(i int) string     { return fmt.Sprintf("E%02d", i) }
 func key(a, e int) string { return an(a) + " <- " + en(e) }
 
 // payload spellings; which of them FormatReturnParam renders as empty is asked of FormatReturnParam itself
@@ -192,15 +212,27 @@ type realOut struct {
 	panicked bool
 	panicMsg string
 	runaway  bool
-	crashed  bool   // the worker process died or did not answer: unbounded recursion
+	crashed  bool // the worker process died or did not answer: unbounded recursion
 	crashMsg string
 }
 
 // the real generator runs in a worker subprocess (the harness binary itself): a generator that no longer stops at
 // calls in progress overflows the stack or eats the memory, which cannot be recovered from in-process
 type workReq struct {
-	Case  *caseT `json:"case"`
-	Limit int    `json:"limit"`
+	Case  *caseT   `json:"case,omitempty"`
+	Limit int      `json:"limit,omitempty"`
+	Fmt   *fmtCase `json:"fmt,omitempty"`
+	Opt   *optReq  `json:"opt,omitempty"`
+}
+
+// replayT: the replay format; the original streams write a bare caseT (Kind empty)
+type replayT struct {
+	Kind string    `json:"kind,omitempty"` // "" (a caseT) | fmt | util
+	Fmt  *fmtCase  `json:"fmt,omitempty"`
+	Util *utilCase `json:"util,omitempty"`
+	Opt  *optCase  `json:"opt,omitempty"`
+	Cli  *cliCase  `json:"cli,omitempty"`
+	caseT
 }
 type workRep struct {
 	Text     string `json:"text"`
@@ -215,6 +247,12 @@ var worker *common.Worker
 
 func serveOne(line []byte) interface{} {
 	var q workReq
+	if err := json.Unmarshal(line, &q); err == nil && q.Fmt != nil {
+		return runFmtHere(q.Fmt)
+	}
+	if q.Opt != nil && q.Opt.Case != nil {
+		return runOptHere(q.Opt)
+	}
 	if err := json.Unmarshal(line, &q); err != nil || q.Case == nil {
 		return workRep{Panicked: true, PanicMsg: "bad request"}
 	}
@@ -228,7 +266,7 @@ func serveOne(line []byte) interface{} {
 
 func runReal(tc *caseT, limit int) (r realOut) {
 	var rep workRep
-	died, timedOut, stderr := worker.Call(workReq{tc, limit}, &rep, 20*time.Second)
+	died, timedOut, stderr := worker.Call(workReq{Case: tc, Limit: limit}, &rep, 20*time.Second)
 	switch {
 	case timedOut:
 		return realOut{crashed: true, crashMsg: "no answer within 20 s"}
@@ -281,7 +319,12 @@ func runRealHere(tc *caseT, limit int) (r realOut) {
 	return r
 }
 
-var logger = func() *logrus.Logger { l := logrus.New(); l.SetLevel(logrus.PanicLevel); l.SetOutput(devnull{}); return l }()
+var logger = func() *logrus.Logger {
+	l := logrus.New()
+	l.SetLevel(logrus.PanicLevel)
+	l.SetOutput(devnull{})
+	return l
+}()
 
 type devnull struct{}
 
@@ -292,7 +335,7 @@ func (devnull) Write(p []byte) (int, error) { return len(p), nil }
 type ev struct {
 	kind string // section arrow return self activate deactivate open alt else end noteover noteside
 	s, t string // aliases ("[" = outside world)
-	lbl  string // arrow: endpoint label; open: keyword; section: text
+	lbl  string // arrow: endpoint label; open: keyword; section: text; note: text
 }
 type declT struct{ agent, label, alias string }
 type diagram struct {
@@ -300,21 +343,24 @@ type diagram struct {
 	evs      []ev
 	boxes    [][]string // aliases per box
 	boxNames []string
-	badLine string
-	boxOpen bool
+	badLine  string
+	boxOpen  bool
+	title    string
+	titles   int
 }
 
 var (
-	reHead    = regexp.MustCompile(`^(\w+) "([^"]*)" as (_\d+)$`)
-	reCall    = regexp.MustCompile(`^(\[|_\d+)->(_\d+) : (.*)$`)
-	reSelf    = regexp.MustCompile(`^(_\d+) -> (_\d+) : (.*)$`)
-	reRet     = regexp.MustCompile(`^(\[|_\d+)<--(_\d+) :(.*)$`)
-	reAct     = regexp.MustCompile(`^(activate|deactivate) (_\d+)$`)
-	reSection = regexp.MustCompile(`^== (.*) ==$`)
-	reOver    = regexp.MustCompile(`^note over (_\d+): (.*)$`)
-	reSide    = regexp.MustCompile(`^note (left|right): ?(.*)$`)
-	reBox     = regexp.MustCompile(`^box "(.*)" #\w+$`)
-	rePart    = regexp.MustCompile(`^participant (_\d+)$`)
+	reHead     = regexp.MustCompile(`^(\w+) "(.*)" as (_\d+)$`)
+	reCall     = regexp.MustCompile(`^(\[|_\d+)->(_\d+) : (.*)$`)
+	reSelf     = regexp.MustCompile(`^(_\d+) -> (_\d+) : (.*)$`)
+	reRet      = regexp.MustCompile(`^(\[|_\d+)<--(_\d+) :(.*)$`)
+	reAct      = regexp.MustCompile(`^(activate|deactivate) (_\d+)$`)
+	reSection  = regexp.MustCompile(`^== (.*) ==$`)
+	reOver     = regexp.MustCompile(`^note over (_\d+): (.*)$`)
+	reSide     = regexp.MustCompile(`^note (left|right): ?(.*)$`)
+	reSideText = regexp.MustCompile(`^note (left|right): (.*)$`)
+	reBox      = regexp.MustCompile(`^box "(.*)" #\w+$`)
+	rePart     = regexp.MustCompile(`^participant (_\d+)$`)
 )
 
 func readDiagram(text string) *diagram {
@@ -351,7 +397,8 @@ func readDiagram(text string) *diagram {
 			}
 			continue
 		}
-		// body
+		// body; lr keeps the trailing blanks of a text (labels, notes, titles may end in blanks)
+		lr := strings.TrimLeft(raw, " \t")
 		var m []string
 		switch {
 		case l == "@enduml":
@@ -360,26 +407,33 @@ func readDiagram(text string) *diagram {
 		case reSection.MatchString(l):
 			m = reSection.FindStringSubmatch(l)
 			d.evs = append(d.evs, ev{kind: "section", lbl: m[1]})
-		case reCall.MatchString(l):
-			m = reCall.FindStringSubmatch(l)
+		case reCall.MatchString(lr):
+			m = reCall.FindStringSubmatch(lr)
 			d.evs = append(d.evs, ev{kind: "arrow", s: m[1], t: m[2], lbl: m[3]})
-		case reSelf.MatchString(l):
-			m = reSelf.FindStringSubmatch(l)
+		case reSelf.MatchString(lr):
+			m = reSelf.FindStringSubmatch(lr)
 			if m[1] != m[2] {
 				d.badLine = raw
 			}
 			d.evs = append(d.evs, ev{kind: "self", s: m[1], t: m[2]})
-		case reRet.MatchString(l):
-			m = reRet.FindStringSubmatch(l)
+		case reRet.MatchString(lr):
+			m = reRet.FindStringSubmatch(lr)
 			d.evs = append(d.evs, ev{kind: "return", s: m[1], t: m[2]})
 		case reAct.MatchString(l):
 			m = reAct.FindStringSubmatch(l)
 			d.evs = append(d.evs, ev{kind: m[1], t: m[2]})
-		case reOver.MatchString(l):
-			m = reOver.FindStringSubmatch(l)
-			d.evs = append(d.evs, ev{kind: "noteover", t: m[1]})
-		case reSide.MatchString(l):
-			d.evs = append(d.evs, ev{kind: "noteside"})
+		case reOver.MatchString(lr):
+			m = reOver.FindStringSubmatch(lr)
+			d.evs = append(d.evs, ev{kind: "noteover", t: m[1], lbl: m[2]})
+		case reSide.MatchString(lr):
+			txt := ""
+			if mt := reSideText.FindStringSubmatch(lr); mt != nil {
+				txt = mt[2]
+			}
+			d.evs = append(d.evs, ev{kind: "noteside", lbl: txt})
+		case strings.HasPrefix(l, "title ") && len(d.evs) == 0:
+			d.title = strings.TrimPrefix(lr, "title ")
+			d.titles++
 		case l == "end box":
 			if !d.boxOpen {
 				d.badLine = raw
@@ -455,6 +509,9 @@ type danglingErr struct{}
 // one call per visit, which bounds the watchdog
 var refVisits int
 
+// refVisited (when set): how often the reference walk reaches an endpoint that has statements, per canonical key
+var refVisited map[string]int
+
 // refWalk: the specification of the call arrows: depth-first over call statements in source order; an endpoint in
 // progress or cut by a blackbox is shown but not expanded. cut = effective blackbox keys. limit bounds the result.
 func refWalk(tc *caseT, cut map[string]bool, inprog map[string]bool, from, a, e int, out *[]arrowT, limit int) {
@@ -472,6 +529,9 @@ func refWalk(tc *caseT, cut map[string]bool, inprog map[string]bool, from, a, e 
 		}
 	}
 	k := key(a, e)
+	if len(ep.Body) > 0 && refVisited != nil {
+		refVisited[k]++
+	}
 	if len(ep.Body) == 0 || cut[k] || inprog[k] {
 		return
 	}
@@ -532,6 +592,37 @@ func aliasNum(s string) int { n, _ := strconv.Atoi(strings.TrimPrefix(s, "_")); 
 
 var agentG = map[string]string{"actor": "Actor", "boundary": "Boundary", "control": "Control", "database": "Database", "collections": "Collections", "queue": "Queue"}
 
+// namer: how participants, endpoints, sections and boxes of a diagram text are mapped back to the numbers of the case
+type namer struct {
+	app func(label string) int       // participant label -> application
+	ep  func(label string) int       // arrow label -> endpoint
+	sec func(text string) (int, int) // section header -> (application, endpoint)
+}
+
+var plainNames = &namer{
+	app: func(l string) int {
+		var ai int
+		if n, _ := fmt.Sscanf(l, "A%02d", &ai); n != 1 {
+			ai = 999999
+		}
+		return ai
+	},
+	ep: func(l string) int {
+		var ei int
+		if n, _ := fmt.Sscanf(l, "E%02d", &ei); n != 1 {
+			ei = 999999
+		}
+		return ei
+	},
+	sec: func(t string) (int, int) {
+		var a, ei int
+		if n, _ := fmt.Sscanf(t, "A%02d <- E%02d", &a, &ei); n != 2 {
+			a, ei = 999999, 999999
+		}
+		return a, ei
+	},
+}
+
 // judge runs the real generator on tc, judges every clause of the property on the text and renders the observation
 func judge(c *common.Ctx, tc *caseT) judged {
 	want, wantErr, big := refDiagram(tc, 5000)
@@ -562,7 +653,16 @@ func judge(c *common.Ctx, tc *caseT) judged {
 		}
 		return judged{obs: "ObsErr", outcome: "err"}
 	}
-	d := readDiagram(r.text)
+	d, alias2app, got := judgeText(c, tc.Apps, r.text, want, wantErr, "arrows-differ", tc, plainNames)
+	dg, eg, bg := obsOf(c, d, alias2app, tc, plainNames)
+	return judged{obs: "(ObsOk " + common.GList(dg) + " " + common.GList(eg) + " " + common.GList(bg) + ")", nArrows: len(got), outcome: "ok"}
+}
+
+// judgeText: every clause of the property on one diagram text. want = the arrows of the reference walk; rp = the replay
+// input reported with a failure; arrowsKey = the key a difference in the arrows is reported under
+func judgeText(c *common.Ctx, apps []appT, text string, want []arrowT, wantErr bool, arrowsKey string, rp interface{}, nm *namer) (*diagram, map[string]int, []arrowT) {
+	tc := rp
+	d := readDiagram(text)
 	if d.badLine != "" {
 		c.Fail("unreadable-line", fmt.Sprintf("line not understood by the PlantUML-sequence reader: %q", d.badLine), tc)
 	}
@@ -574,11 +674,7 @@ func judge(c *common.Ctx, tc *caseT) judged {
 			c.Fail("declared-twice", fmt.Sprintf("participant %s %q declared more than once", dc.alias, dc.label), tc)
 		}
 		seenLabel[dc.label] = true
-		var ai int
-		if n, _ := fmt.Sscanf(dc.label, "A%02d", &ai); n != 1 {
-			ai = 999999
-		}
-		alias2app[dc.alias] = ai
+		alias2app[dc.alias] = nm.app(dc.label)
 	}
 	used := func(al string) {
 		if al == "[" || al == "" {
@@ -606,14 +702,11 @@ func judge(c *common.Ctx, tc *caseT) judged {
 				active[e.t] = 0
 			}
 		case "arrow":
-			var ei int
-			if n, _ := fmt.Sscanf(e.lbl, "E%02d", &ei); n != 1 {
-				ei = 999999
-			}
+			ei := nm.ep(e.lbl)
 			from := -1
 			if e.s != "[" {
 				from = alias2app[e.s]
-				suppressed := from < len(tc.Apps) && (hasPat(&tc.Apps[from], "human") || hasPat(&tc.Apps[from], "cron"))
+				suppressed := from < len(apps) && (hasPat(&apps[from], "human") || hasPat(&apps[from], "cron"))
 				if active[e.s] <= 0 && !suppressed {
 					c.Fail("sender-inactive", fmt.Sprintf("%s (%s) sends the call %s to %s while it is not active", e.s, an(from), e.lbl, e.t), tc)
 				}
@@ -659,7 +752,7 @@ func judge(c *common.Ctx, tc *caseT) judged {
 	// --- arrows = reference walk
 	if wantErr {
 		c.Fail("missing-error", "a start endpoint or a call target does not exist, yet a diagram was returned", tc)
-	} else {
+	} else if arrowsKey != "" {
 		same := len(got) == len(want)
 		for i := 0; same && i < len(got); i++ {
 			same = got[i] == want[i]
@@ -669,11 +762,14 @@ func judge(c *common.Ctx, tc *caseT) judged {
 			for i < len(got) && i < len(want) && got[i] == want[i] {
 				i++
 			}
-			c.Fail("arrows-differ", fmt.Sprintf("the call arrows are not the calls reachable from the start in source order: %d arrows drawn, %d expected, first difference at arrow %d", len(got), len(want), i), tc)
+			c.Fail(arrowsKey, fmt.Sprintf("the call arrows are not the calls reachable from the start in source order: %d arrows drawn, %d expected, first difference at arrow %d", len(got), len(want), i), tc)
 		}
 	}
-	// --- observation for Coq
-	var dg, eg []string
+	return d, alias2app, got
+}
+
+// obsOf: the observation for Coq: head declarations, body events, boxes
+func obsOf(c *common.Ctx, d *diagram, alias2app map[string]int, tc interface{}, nm *namer) (dg, eg, bg []string) {
 	for _, dc := range d.decls {
 		ag, ok := agentG[dc.agent]
 		if !ok {
@@ -691,17 +787,10 @@ func judge(c *common.Ctx, tc *caseT) judged {
 	for _, e := range d.evs {
 		switch e.kind {
 		case "section":
-			var a, ei int
-			if n, _ := fmt.Sscanf(e.lbl, "A%02d <- E%02d", &a, &ei); n != 2 {
-				a, ei = 999999, 999999
-			}
+			a, ei := nm.sec(e.lbl)
 			eg = append(eg, fmt.Sprintf("Section %d %d", a, ei))
 		case "arrow":
-			var ei int
-			if n, _ := fmt.Sscanf(e.lbl, "E%02d", &ei); n != 1 {
-				ei = 999999
-			}
-			eg = append(eg, fmt.Sprintf("Arrow %s %d %d", p(e.s), alias2app[e.t], ei))
+			eg = append(eg, fmt.Sprintf("Arrow %s %d %d", p(e.s), alias2app[e.t], nm.ep(e.lbl)))
 		case "return":
 			eg = append(eg, fmt.Sprintf("Return %s %d", p(e.s), alias2app[e.t]))
 		case "self":
@@ -724,7 +813,6 @@ func judge(c *common.Ctx, tc *caseT) judged {
 			eg = append(eg, "NoteSide")
 		}
 	}
-	var bg []string
 	for i, b := range d.boxes {
 		var gi int
 		if n, _ := fmt.Sscanf(d.boxNames[i], "t%d", &gi); n != 1 {
@@ -736,7 +824,7 @@ func judge(c *common.Ctx, tc *caseT) judged {
 		}
 		bg = append(bg, fmt.Sprintf("(%d,%s)", gi, common.GList(ms)))
 	}
-	return judged{obs: "(ObsOk " + common.GList(dg) + " " + common.GList(eg) + " " + common.GList(bg) + ")", nArrows: len(got), outcome: "ok"}
+	return dg, eg, bg
 }
 
 // ---------------------------------------------------------------- Gallina printing of the input
@@ -1020,11 +1108,16 @@ func main() {
 	classifyPayloads()
 	c.Res.Rule = "each case = (module of 1-6 apps x 1-3 endpoints whose statements are calls / actions / returns with 10 payload spellings / opt-loop-group blocks / alternatives nested up to 3 deep, patterns human-cron-ui-db-..., hidden endpoints; start entries; blackboxes; group-by option); mostly-valid stream + hostile stream (dangling call targets, missing starts, no starts) + the shapes `callee called twice`, `alt with calls ending its choices as last statement`, `return inside a nested block`; thorough adds every module over 3 endpoints x <=2 statements; distinct = distinct abstract case; non-trivial = the diagram has at least 3 call arrows, or the run ends in an error"
 	if c.Replay != "" {
-		var tc caseT
-		if err := common.LoadReplay(c.Replay, &tc); err != nil {
+		var rp replayT
+		if err := common.LoadReplay(c.Replay, &rp); err != nil {
 			fmt.Fprintln(os.Stderr, err)
 			os.Exit(3)
 		}
+		if rp.Kind != "" {
+			replayNew(c, &rp)
+			return
+		}
+		tc := rp.caseT
 		j := judge(c, &tc)
 		r := runReal(&tc, refVisits+64)
 		c.Count("replay", true)
@@ -1124,7 +1217,54 @@ Definition BB a e c l := {| bb_key := (a,e); bb_cut := c; bb_clen := l |}.`
 		c.Res.Extra["exhaustive_small_scope_modules"] = k
 	}
 	cs.Close()
+	// label pipeline (deepen round 3)
+	nf, nu := 1500, 300
+	if c.Thorough() {
+		nf, nu = 20000, 3000
+	}
+	if c.Search {
+		nf *= 3
+	}
+	fmtStream(c, nf)
+	utilStream(c, nu)
+	no := 450
+	if c.Thorough() {
+		no = 6000
+	}
+	if c.Search {
+		no *= 3
+	}
+	optStream(c, no)
+	cliStream(c)
 	c.Res.Extra["worker_restarts"] = worker.Restarts
+}
+
+func replayNew(c *common.Ctx, rp *replayT) {
+	switch rp.Kind {
+	case "fmt":
+		rep, crashed, msg := runFmt(rp.Fmt)
+		c.Count("replay", true)
+		fmt.Printf("replay fmt: format=%q crashed=%v %s panicked=%v %s\nlabel=%q mutated=%v dirty=%v\n", rp.Fmt.Self, crashed, msg, rep.Panicked, rep.PanicMsg, rep.Out, rep.Mutated, rep.Dirty)
+		if rep.Panicked {
+			c.Fail(fmtPanicKey(rep.PanicMsg), "FormatParser panics: "+rep.PanicMsg, rp)
+		}
+	case "cli":
+		fmt.Printf("replay cli: sysl %s m.sysl with Project%s / Project <- E00%s; source:\n%s\n", strings.Join(rp.Cli.Args, " "), rp.Cli.ProjAttr, rp.Cli.EpAttr, fmt.Sprintf(cliSource, rp.Cli.ProjAttr, rp.Cli.EpAttr))
+	case "util":
+		fmt.Printf("replay util: %+v\n", *rp.Util)
+	case "opt":
+		cs := c.NewCases("C13opt", optHeader(), "opt_case", "", 150)
+		optOne(c, cs, rp.Opt, "replay")
+		cs.Close()
+		rep, _, _ := runOpt(rp.Opt, false)
+		fmt.Printf("replay opt: options=%+v\nerr=%v %s panicked=%v %s warnings=%q\n", rp.Opt.Opt, rep.HasErr, rep.Err, rep.Panicked, rep.PanicMsg, rep.Warnings)
+		for n, t := range rep.Outs {
+			fmt.Printf("---- %s\n%s\n", n, t)
+		}
+		for _, f := range c.Res.Failures {
+			fmt.Println("  " + f.Key + ": " + f.What)
+		}
+	}
 }
 
 func corpus() []*caseT {
@@ -1140,6 +1280,11 @@ func corpus() []*caseT {
 		{Apps: []appT{{Eps: []endpointT{{Body: []stmt{call(1, 0), call(1, 0)}}}}, {Eps: []endpointT{{Body: []stmt{call(2, 0)}}}}, {Eps: []endpointT{{Body: []stmt{{K: kAction}}}}}}, Starts: [][2]int{{0, 0}}},
 		// alt as last statement, a call ending each choice, callee without shown payload
 		{Apps: []appT{{Eps: []endpointT{{Body: []stmt{{K: kAlt, Alts: [][]stmt{{call(1, 0)}, {call(1, 0)}}}}}}}, {Eps: []endpointT{{Body: []stmt{{K: kAction}, ret(1)}}}}}, Starts: [][2]int{{0, 0}}},
+		// re-entrancy through DIFFERENT endpoints of one application: A.E0 -> B.E0 -> A.E1 -> B.E0 (B.E0 is on the path: shown,
+		// not expanded) -> A.E0 (on the path); A.E1 itself is expanded although A is already being expanded
+		{Apps: []appT{{Eps: []endpointT{{Body: []stmt{call(1, 0), {K: kAction}}}, {Body: []stmt{call(1, 0), call(0, 0), ret(2)}}}}, {Eps: []endpointT{{Body: []stmt{call(0, 1), ret(2)}}}}}, Starts: [][2]int{{0, 0}}},
+		// the same endpoint reached twice on different paths is expanded twice (the mark is released), a self call is not
+		{Apps: []appT{{Eps: []endpointT{{Body: []stmt{call(0, 1), call(1, 0), call(0, 1)}}, {Body: []stmt{call(1, 0), call(0, 1)}}}}, {Eps: []endpointT{{Body: []stmt{call(0, 1)}}}}}, Starts: [][2]int{{0, 0}, {0, 1}}},
 		// return inside nested blocks decides the payload
 		{Apps: []appT{{Eps: []endpointT{{Body: []stmt{call(1, 0)}}}}, {Eps: []endpointT{{Body: []stmt{{K: kBlock, BK: 0, Body: []stmt{{K: kBlock, BK: 1, Body: []stmt{ret(2)}}}}, call(0, 0)}}}}}, Starts: [][2]int{{0, 0}}},
 	}
